@@ -25,9 +25,11 @@ ENTRY = {
                      "headers are not modified after the status was written"],
         quick=[REPLAY,
                R("sweep", "^(TestKinds|TestSweep)$", timeout=300),
-               R("random", "^TestRandom$", checks=150000, timeout=600)],
+               R("random", "^TestRandom$", checks=150000, timeout=600),
+               R("default-logger", "^TestDefaultLogger$", checks=40, timeout=600)],
         thorough=[REPLAY,
                   R("sweep", "^(TestKinds|TestSweep)$", timeout=600),
-                  R("random", "^TestRandom$", checks=250000, shards=16, timeout=3000)],
+                  R("random", "^TestRandom$", checks=250000, shards=16, timeout=3000),
+                  R("default-logger", "^TestDefaultLogger$", checks=300, shards=8, timeout=3000)],
     ),
 }
